@@ -46,11 +46,14 @@ def gen_values(rng, t, n, ts_range=None):
         return b''
     if n > 20000 and t not in ('bool', 'ts'):
         # huge arrays (beyond any block / buffer size a reader or writer may use): random bytes, finite floats
+        import numpy as np
         b = bytearray(rng.randbytes(n * size))
-        if t in ('f32', 'f32u', 'c64'):
-            b[3::4] = bytes(x & 0x3F | 0x40 if x & 0x7F >= 0x7F else x for x in b[3::4])
-        elif t in ('f64', 'f64u', 'c128'):
-            b[7::8] = bytes(x & 0x3F | 0x40 if x & 0x7F >= 0x7F else x for x in b[7::8])
+        step = 4 if t in ('f32', 'f32u', 'c64') else (8 if t in ('f64', 'f64u', 'c128') else 0)
+        if step:
+            hi = np.frombuffer(b, dtype=np.uint8)[step - 1::step]      # a view: writes go to b
+            mask = (hi & 0x7F) >= 0x7F
+            hi[mask] = (hi[mask] & 0x3F) | 0x40
+            del hi
         return bytes(b)
     if t == 'bool':
         return bytes(rng.getrandbits(1) for _ in range(n))
@@ -145,7 +148,8 @@ class Opts(object):
         self.version = None
         self.scaling = None              # callable(rng, spec, chan types) adding NI_Scale properties
         self.equal_shapes_p = 0.0        # chance that all channels share counts (index de-duplication)
-        self.huge_p = 0.0                # chance per world of one channel chunk above 1 MiB (block / buffer sizes)
+        self.huge_p = 0.0                # chance per world of one very long channel chunk (block / buffer / cache size thresholds)
+        self.huge_classes = ['k64', 'm1']  # just over 2^16 values; 1.05-2.3 MiB; 'm16' = just over 2^24 bytes
         self.short_last_p = 0.0          # chance per eligible segment of a stated short final chunk ("less data than expected")
         self.common_names_p = 0.3        # chance per world that names come from a tiny fixed pool: files handled one after another
                                          # in a process then share object paths, as files from one measurement setup do
@@ -167,6 +171,10 @@ def deepen(o, tier):
 
 
 def _names(rng, o):
+    fixed = getattr(o, 'fixed_names', None)
+    if fixed is not None:
+        names = {k: list(v) for k, v in fixed.items()}
+        return names, [p for p, n in names.items() if len(n) == 1], [p for p, n in names.items() if len(n) == 2]
     nasty = rng.random() < o.nasty_names
     common = rng.random() < o.common_names_p
     names = {'/': []}
@@ -209,6 +217,7 @@ def gen_spec(rng, o):
     equal_shapes = rng.random() < o.equal_shapes_p
     huge = rng.random() < o.huge_p
     huge_done = False
+    big_emitted = False
     run_left = 0
     run_at = None
     if o.long_run_p and rng.random() < o.long_run_p:
@@ -283,7 +292,13 @@ def gen_spec(rng, o):
                         L['index'] = 'full'
                         L['type'] = t
                         if huge and not huge_done and t not in ('str', 'bool', 'ts') and not interleaved:
-                            L['count'] = rng.randint(int(1.05 * 2**20 / fmt.size_of(t)), int(2.3 * 2**20 / fmt.size_of(t)))
+                            hc = rng.choice(o.huge_classes)
+                            if hc == 'k64':
+                                L['count'] = rng.randint(2**16 + 1, 2**16 + 5000)
+                            elif hc == 'm16':
+                                L['count'] = (2**24 + rng.randint(1, 2**16)) // fmt.size_of(t) + 1
+                            else:
+                                L['count'] = rng.randint(int(1.05 * 2**20 / fmt.size_of(t)), int(2.3 * 2**20 / fmt.size_of(t)))
                             huge_done = True
                         elif equal_shapes:
                             L['count'] = common_count
@@ -362,6 +377,11 @@ def gen_spec(rng, o):
             chunks = 0 if r < 0.08 else (1 if r < 0.5 else rng.randint(2, o.max_chunks))
             if (light or chunk_bytes > 2**20) and chunks > 1:
                 chunks = 1
+            if chunk_bytes > 2**23:
+                # the 16 MiB class: one such chunk per world
+                if big_emitted:
+                    chunks = 0
+                big_emitted = big_emitted or chunks > 0
             if run_at is not None and not meta and chunk_bytes < 4096:
                 chunks = rng.choice([1, 1, 1, 1, 2, 3])      # streamed segments of unequal length
         seg['chunks'] = chunks
@@ -424,3 +444,57 @@ def gen_world(rng, o, tries=50):
         except SpecError:
             continue
     raise RuntimeError('generator failed to produce a valid spec in %d tries' % tries)
+
+
+def sibling(rng, spec, tries=6):
+    """A different well-formed file that looks like `spec` from the outside: the same objects, the same number of
+    segments, the same file size and the same channel lengths, but other values and - where two segments state different
+    lengths for a channel - the lengths exchanged between them, i.e. the same data distributed differently over the
+    segments.  Files recorded with one measurement setup are siblings of this kind; state that a reader keeps beyond one
+    file object (keyed by path, size, length ...) returns the wrong one of them.  None when the world has no such variant
+    (strings, DAQmx, stated short chunks)."""
+    import copy
+    if any(sg.get('layout') == 'daqmx' or sg.get('short_last') for sg in spec['segments']):
+        return None
+    for _ in range(tries):
+        s2 = copy.deepcopy(spec)
+        full = {}
+        for k, sg in enumerate(s2['segments']):
+            for L in sg.get('listed', []):
+                if L.get('index') == 'full' and L.get('type') not in (None, 'str'):
+                    full.setdefault(L['path'], []).append((sg['chunks'], L))
+        pairs = [(a, b, ca == cb) for ls in full.values() for i, (ca, a) in enumerate(ls) for (cb, b) in ls[i + 1:]
+                 if a['count'] != b['count'] and a['type'] == b['type']]
+        swapped = False
+        if pairs and rng.random() < 0.8:
+            best = [x for x in pairs if x[2]] or pairs        # equal chunk counts keep the channel length and the file size
+            a, b, _eq = rng.choice(best)
+            a['count'], b['count'] = b['count'], a['count']
+            swapped = True
+        trial = dict(s2)
+        trial['segments'] = [dict(sg, chunks=0, data={}) for sg in s2['segments']]
+        try:
+            wt = build(trial)
+        except (SpecError, Forbidden):
+            continue
+        ok = True
+        for sg, si in zip(s2['segments'], wt.segs):
+            data = {}
+            for (p, has, idx) in si.active:
+                if not has:
+                    continue
+                if idx is None or idx['type'] in ('str', 'daqmx'):
+                    ok = False
+                    break
+                data[p] = [gen_values(rng, idx['type'], idx['count'], 2**36) for _c in range(sg['chunks'])]
+            if not ok:
+                break
+            sg['data'] = data
+        if not ok:
+            return None
+        try:
+            w2 = build(s2)
+        except (SpecError, Forbidden):
+            continue
+        return s2, swapped
+    return None
